@@ -61,6 +61,13 @@ def main():
         else:
             cp, lp = shipped[i - len(cases)]
             cap, keylog, label = open(cp, "rb").read(), open(lp).read(), "shipped " + os.path.basename(cp)
+        if i % 3 == 1:
+            # a key log with competing lines (a stale twin after every line: same label and client random, another value): the export
+            # may be anything, but it must be the same in every run
+            twin = lambda l: " ".join(l.split(" ")[:2] + ["".join(rng.choice("0123456789abcdef") for _ in l.split(" ")[2])])
+            keylog = "".join(l + "\n" + twin(l) + "\n" for l in keylog.split("\n") if l)
+            label += " (key log with stale twins)"
+            hist["keylog=stale-twins"] += 1
         args = [[], ["-a"], ["-m", "443:9000"], ["-p", "8443", "-a"]][i % 4]
         cap_path, log_path = os.path.join(tmp, "in.pcapng"), os.path.join(tmp, "keys.log")
         with open(cap_path, "wb") as f:
@@ -74,6 +81,12 @@ def main():
             outs["hash seed %s" % sd] = fresh_process(cap_path, log_path, args, sd, tmp, {})
         outs["other working directory, TZ and locale"] = fresh_process(cap_path, log_path, args, 5, other, {"TZ": "Pacific/Kiritimati", "LC_ALL": "C", "LANG": "tr_TR.UTF-8", "COLUMNS": "40"})
         # in-process: after whatever the earlier cases left behind, twice in a row, and after an unrelated run with other options
+        # ... after a run on the SAME capture with other secrets for the same connections (half of the lines, then wrong values)
+        lines = [l for l in keylog.split("\n") if l]
+        impl.run(cap, "\n".join(lines[::2]) + "\n", args)
+        impl.run(cap, "\n".join(" ".join(l.split(" ")[:2] + [l.split(" ")[2][::-1]]) for l in lines) + "\n", args)
+        st0, o0 = impl.run(cap, keylog, args)
+        outs["in-process, after runs on the same capture with other secrets"] = o0 if st0 == "ok" else st0
         st1, o1 = impl.run(cap, keylog, args)
         st2, o2 = impl.run(cap, keylog, args)
         outs["in-process, after the earlier cases"] = o1 if st1 == "ok" else st1
